@@ -185,10 +185,9 @@ def run_convert(task):
                 for n, a in calls:
                     cs = comp.call(n, a)
                     must.append((f"step {si}: {n} {a} applicable in the step's pre-state", comp._subst(cs.pre, sa, sf)))
-                for (n1, a1), (n2, a2) in itertools.combinations(calls, 2):
-                    w = comp.call(n1, a1).written_fluents & comp.call(n2, a2).written_fluents
-                    if w:
-                        must.append((f"step {si}: {n1} {a1} and {n2} {a2} both write {sorted(w)}", z3.BoolVal(False)))
+                # (two members that write the same fluent are judged by the semantic non-interference obligation below:
+                # PDDL 2.1 lets additive updates of one fluent commute; what must not happen is an order-dependent result
+                # or a member that another member disables -- and a counterexample has to reproduce on those terms)
                 if flag and len(calls) > 1:
                     for (n1, a1), (n2, a2) in itertools.combinations(calls, 2):
                         if set(a1) & set(a2):
@@ -208,6 +207,14 @@ def run_convert(task):
                     r = ctx.check(z3.Not(ni), expect_unsat=True)
                     if r == "unknown":
                         raise Inconclusive("obligation")
+                    double_write = any(comp.call(n1, a1).written_fluents & comp.call(n2, a2).written_fluents
+                                       for (n1, a1), (n2, a2) in itertools.combinations(calls, 2))
+                    if r == "sat" and double_write:
+                        # the one interference test of the converter that works (no fluent written twice in a step) did not
+                        # stop this group: not the known finding
+                        _report(ctx, res, comp, atoms, fl_all, f"step {si} {calls}: members write the same fluent and interfere "
+                                                               f"(some order inapplicable or another result)", joint, z3.Not(ni))
+                        return
                     if r == "sat":
                         # members applicable and without numeric write-write conflict, yet interfering: exactly what known
                         # finding C15-F1 describes (the discrete / numeric-read interference tests of the converter are dead)
